@@ -31,10 +31,12 @@ def run(rep):
 
             late.append({**s, 'faults': {**s['faults'], 'restart_delays': delays}, 'dev_window': (s['faults']['from_ms'], s['faults']['from_ms'] + 350 + max(d or 0 for d in delays))})
 
-    fam    = [s for s in fam if 'silent' not in s['name'] and not s.get('late_d1')]
+    calm   = [{**s, 'dev_window': (0, 1200)} for s in fam if s.get('c06_nofault')]
+    fam    = [s for s in fam if 'silent' not in s['name'] and not s.get('late_d1') and not s.get('c06_nofault')]
 
     explore.explore(rep, 'kills-d0', fam, 0, bases, 'checks.oracles:oracle_c06', budget_s=900 if quick else 1700)
     explore.explore(rep, 'silent-d1', silent, 1, bases, 'checks.oracles:oracle_c06', budget_s=900)
+    explore.explore(rep, 'no-fault-d1', calm, 1, bases, 'checks.oracles:oracle_c06', budget_s=900)      # no deadlock without any fault
     explore.explore(rep, 'late-kill-d1', late, 1, bases, 'checks.oracles:oracle_c06', budget_s=900)      # kill after 2 s, one deviation in the 300 ms after it
 
     if not quick:
